@@ -141,7 +141,7 @@ func (k *c06Checker) check(t *aspenkit.ClusterTrace, cp *aspenkit.Checkpoint, re
 		if len(inf) > 0 {
 			ok = false // not actually quiescent at the instant of the snapshot: retake
 			if report {
-				t.Inconclusive = fmt.Sprintf("node %d infected at checkpoint", i+1)
+				t.Inconclusive = fmt.Sprintf("node-infected-at-checkpoint:%d", i+1)
 			}
 		}
 	}
@@ -150,22 +150,47 @@ func (k *c06Checker) check(t *aspenkit.ClusterTrace, cp *aspenkit.Checkpoint, re
 
 // classify names the mechanism by which node `stale` failed to receive what `ref` holds,
 // from what the transport decorator observed. It never decides whether there is a
-// violation (the state comparison did), only which signature it gets.
+// violation (the state comparison did), only which signature it gets. Directed schedules
+// get their own name when the inferred mechanism is the one they set up.
 func (k *c06Checker) classify(t *aspenkit.ClusterTrace, cp *aspenkit.Checkpoint, ks aspenkit.KeySpec, ref, stale int, rs, ns aspenkit.KeyState) (string, map[string]any) {
+	root, diag := k.infer(t, cp, ks, ref, stale, rs, ns)
+	diag["inferred_mechanism"] = root
+	if k.scenario != "" {
+		for _, r := range scenarioRoots[k.scenario] {
+			if r == root {
+				return "c06:" + k.scenario, diag
+			}
+		}
+	}
+	return "c06:" + root + ":inferred", diag
+}
+
+// scenarioRoots: the inferred mechanisms a directed schedule is expected to produce.
+var scenarioRoots = map[string][]string{
+	"late-feedback-silences-newer-op":                  {"late-feedback-silences-newer-op"},
+	"restart-recovery-skips-op-below-local-high-water": {"restart-recovery-skips-op-below-local-high-water"},
+	"restart-forgets-unpropagated-own-write":           {"restart-forgets-unpropagated-own-write"},
+	"stale-lease-commit-overwrites-newer-op":           {"node-holds-own-led-op-against-other-leaseholder"},
+	"partition-heals-after-op-recovered":               {"gossip-recovered-everywhere-before-reaching-node"},
+	"late-feedback-silences-newer-op:fault-free":       {"late-feedback-silences-newer-op"},
+	// with only the writer holding the op, "recovered everywhere" and "silenced" both
+	// mean the same thing: the writer stopped offering the op before it knew the new node
+	"write-during-join-never-reaches-new-node:fault-free": {"gossip-recovered-everywhere-before-reaching-node", "late-feedback-silences-newer-op"},
+}
+
+func (k *c06Checker) infer(t *aspenkit.ClusterTrace, cp *aspenkit.Checkpoint, ks aspenkit.KeySpec, ref, stale int, rs, ns aspenkit.KeyState) (string, map[string]any) {
 	cl := t.Cluster
 	diag := map[string]any{}
 	if rs.HasDigest && ns.HasDigest && rs.Version == ns.Version && rs.Lease == ns.Lease {
-		return "c06:cluster:same-digest-different-value", diag
+		return "same-digest-different-value", diag
 	}
 	refNewer := rs.HasDigest && (!ns.HasDigest || aspenkit.Newer(rs.Version, rs.Lease, ns.Version, ns.Lease))
 	if !refNewer {
-		if k.scenario != "" {
-			return "c06:" + k.scenario + ":node-ahead-of-leaseholder", diag
-		}
-		return "c06:cluster:node-ahead-of-leaseholder", diag
+		return "node-ahead-of-leaseholder", diag
 	}
-	if k.scenario != "" {
-		return "c06:" + k.scenario, diag
+	sn := cl.Nodes[stale]
+	if ns.HasDigest && ns.Lease == sn.Key && rs.Lease != ns.Lease {
+		return "node-holds-own-led-op-against-other-leaseholder", diag
 	}
 	// holders of the newer op and the feedback each of them got for it
 	minFb := -1
@@ -176,30 +201,33 @@ func (k *c06Checker) classify(t *aspenkit.ClusterTrace, cp *aspenkit.Checkpoint,
 			fb := cl.Net.FeedbackDelivered(cl.Nodes[i].Addr, ks.Name, rs.Version)
 			diag[fmt.Sprintf("feedback_for_latest_at_node%d", i+1)] = fb
 			diag[fmt.Sprintf("times_node%d_offered_latest", i+1)] = cl.Net.Gossiped(cl.Nodes[i].Addr, ks.Name, rs.Version)
-			if minFb < 0 || fb < minFb {
+			// a holder that restarted lost its in-memory infected set: its silence is
+			// explained by the restart, not by feedback
+			if cl.Nodes[i].Epoch == 0 && (minFb < 0 || fb < minFb) {
 				minFb = fb
 			}
 		}
 	}
 	diag["holders"] = holders
-	sn := cl.Nodes[stale]
 	if sn.Epoch > 0 && len(sn.HighWater) > 0 {
 		hw := sn.HighWater[len(sn.HighWater)-1]
 		diag["stale_node_high_water_at_restart"] = hw
 		diag["latest_version"] = rs.Version
-		if rs.Version < hw && cp.Phase == "after-restart" {
-			return "c06:restart-recovery-skips-op-below-local-high-water:inferred", diag
+		if rs.Version < hw && cl.Net.Gossiped(sn.Addr, ks.Name, rs.Version) == 0 {
+			// the node restarted with a local high-water mark above the version it is
+			// missing, i.e. its start-up recovery asked its peers to skip it
+			return "restart-recovery-skips-op-below-local-high-water", diag
 		}
 	}
-	if cl.Nodes[ref].Epoch > 0 {
-		return "c06:restart-forgets-unpropagated-own-write:inferred", diag
+	if cl.Nodes[ref].Epoch > 0 && cl.Net.FeedbackDelivered(cl.Nodes[ref].Addr, ks.Name, rs.Version) <= recoveryThreshold+1 {
+		return "restart-forgets-unpropagated-own-write", diag
 	}
 	if minFb >= 0 && minFb <= recoveryThreshold+1 {
 		// a holder stopped gossiping the op although fewer feedback digests for it than
 		// the recovery threshold requires ever reached it
-		return "c06:late-feedback-silences-newer-op:inferred", diag
+		return "late-feedback-silences-newer-op", diag
 	}
-	return "c06:gossip-recovered-everywhere-before-reaching-node:inferred", diag
+	return "gossip-recovered-everywhere-before-reaching-node", diag
 }
 
 func layerCluster(h *harness.H) {
